@@ -135,6 +135,26 @@ theorem periodic_bound13 (x : BA) (p : Nat) (hp1 : 1 ≤ p) (hp : p ≤ 4096) (h
     obtain ⟨k1, k2⟩ := this
     split <;> split at k1 <;> split at k2 <;> omega
 
+/-- **The bounds hold through every public entry point**: the dispatching wrapper
+`CompressionFormat::compress` (used by `LayeredFilesystem::write*`) returns exactly what the format
+struct returns, so the expansion bound holds for what is written to disk (a wrapper that pads or
+re-frames the stream breaks this statement). -/
+theorem expansion_bound_wrapper (x : BA) :
+    (∃ out, Format.compress .lz10 x = .ok out ∧ out.size ≤ 4 + x.size + (x.size + 7) / 8) ∧
+    (∃ out, Format.compress .lz13 x = .ok out ∧
+      out.size ≤ (if x.size = 0 then 12 else 8) + x.size + (x.size + 7) / 8) :=
+  ⟨expansion_bound10 x, expansion_bound13 x⟩
+
+/-- The effectiveness bounds through the wrapper. -/
+theorem periodic_bound_wrapper (x : BA) (p : Nat) (hp1 : 1 ≤ p) (hp : p ≤ 4096) (hper : Periodic x p) :
+    (∃ out, Format.compress .lz10 x = .ok out ∧
+      out.size ≤ 4 + (p + 2) + 2 * ((x.size - p + 17) / 18 + 1) +
+        ((p + 2) + ((x.size - p + 17) / 18 + 1) + 7) / 8) ∧
+    (∃ out, Format.compress .lz13 x = .ok out ∧
+      out.size ≤ 8 + (p + 2) + 4 * ((x.size - p + 4095) / 4096 + 1) +
+        ((p + 2) + ((x.size - p + 4095) / 4096 + 1) + 7) / 8) :=
+  ⟨periodic_bound10 x p hp1 hp hper, periodic_bound13 x p hp1 hp hper⟩
+
 /-! Non-vacuity: a concrete periodic input. -/
 example : Periodic #[1, 2, 3, 1, 2, 3, 1, 2, 3, 1, 2] 3 := by
   intro i hi
